@@ -413,6 +413,28 @@ def run(ctx, chk):
                any(x.endswith("::prev_updated") for x in r), key="E5|collect_stored_range|prev_updated",
                msg="values beyond the on-disk length exist only in the previous overlay after a rollback; reading them "
                    "through the mmap fetches bytes past the region's length")
+    # ---------------- E8 the rollback overlay is complete *before* it becomes the baseline (prev_updated)
+    # (the ACCEPTED reason above and E5 both rest on it: every overlay key at or beyond the on-disk length is in
+    # prev_updated, so the change-record writers take the overlay branch instead of reading the mmap past the region)
+    rb = [b for b in P.bodies if re.search(r"ReadWriteRawVec<I, T, S>>::deserialize_then_undo_changes$", b)]
+    if len(rb) != 1:
+        raise AnchorMissing("raw deserialize_then_undo_changes not found (%d)" % len(rb))
+    RB = O.body(rb[0])
+    upd_save = M(r".*WithPrev::<T>::save", where=lambda body, b, t: "updated" in O.slice_back(body, t["args"][0])["fields"],
+                 label="updated.save()")
+    n_save = len(O.need_sites(RB, upd_save, 1))
+    upd_mut = M(r".*ReadWriteRawVec::<I, T, S>::(mut_updated|update_at)|.*WithPrev::<T>::current_mut", reach=True,
+                label="a write to the `updated` overlay")
+    O.need_sites(RB, upd_mut, 2)
+    late = O.never_after(RB, upd_save, upd_mut)
+    chk.oblige("E8 raw rollback: no write to the `updated` overlay after updated.save() [%d save site(s)]" % n_save,
+               not late, detail={"late_sites": [RB.blocks[b]["term"].get("span") for b in late]},
+               key="E8|raw-rollback|overlay-write-after-save",
+               msg="overlay entries added after the snapshot are missing from prev_updated: the next stamped write reads "
+                   "their 'previous values' through the mmap beyond the region's length")
+    # ---------------- E9 = D7 raw pointer copies out of a byte slice stay inside it (decoders' native-layout path)
+    from props.c17 import raw_copies_bounded
+    raw_copies_bounded(ctx, chk, "E9")
     # ---------------- E4 page entry after region write
     from props.c09 import CMP_WRITE, TW, CPUSH
     cw = O.body(CMP_WRITE)
